@@ -950,7 +950,7 @@ func init() {
 		Race: c05Race,
 		ID:   "C05", Level: "model_checking",
 		Technique:   "every call shape / multi grouping sent through the real region client and parsed by an independent wire decoder (field-by-field comparison with the requested operation); concurrent senders on a non-TCP connection under all schedules with <=2 deviations",
-		Rule:        "(1) shapes: 5 mutation kinds x 5 value-map shapes x 5 timestamps x 5 durabilities x TTL (one factor at a time plus a third of the pairs; thorough: full product), check-and-put, gets with 10 options singly and in pairs, scans with 9 options x 3 bounds, scanner continue/close/renew; plain and snappy; (2) one multi-request for every sequence of 1-4 calls over two regions and 7 sequences over three regions (put/get/delete mixed), plain and snappy; (3) 2-3 concurrent senders (unbatched cellblock calls, a multi flush racing an unbatched call) on an in-memory net.Conn where a gather write is several Writes, all schedules with <=2 deviations; (4) values around 1 and 2 compression chunks. Oracle: preamble and connection header, frame length, unique call ids, method name, priority, cell_block_meta.length = trailing bytes, cells = sum of associated_cell_count, decoded operation = requested operation, region name per action, per-region batch order. Non-trivial = every unit (distinct shapes / schedules).",
+		Rule:        "(0) every mutation kind with rows of 255..65539 bytes x families of 1..258 bytes, around the widths of the KeyValue length fields: on the wire as built, or refused when built. (1) shapes: 5 mutation kinds x 5 value-map shapes x 5 timestamps x 5 durabilities x TTL (one factor at a time plus a third of the pairs; thorough: full product), check-and-put, gets with 10 options singly and in pairs, scans with 9 options x 3 bounds, scanner continue/close/renew; plain and snappy; (2) one multi-request for every sequence of 1-4 calls over two regions and 7 sequences over three regions (put/get/delete mixed), plain and snappy; (3) 2-3 concurrent senders (unbatched cellblock calls, a multi flush racing an unbatched call) on an in-memory net.Conn where a gather write is several Writes, all schedules with <=2 deviations; (4) values around 1 and 2 compression chunks. Oracle: preamble and connection header, frame length, unique call ids, method name, priority, cell_block_meta.length = trailing bytes, cells = sum of associated_cell_count, decoded operation = requested operation, region name per action, per-region batch order. Non-trivial = every unit (distinct shapes / schedules).",
 		Assumptions: []string{"kernel-TCP atomicity of one writev is the kernel's and package net's (not explorable by a scheduler that does not model the socket lock)", "map iteration inside the client is deterministic under instrumentation (sorted / insertion order); family orders are varied by the shapes instead"},
 		Quick:       150 * time.Second, Thorough: 20 * time.Minute,
 		Units: c05Units,
